@@ -43,10 +43,10 @@ def race_signature(block):
     return "race:" + "|".join(seen[:3])
 
 
-def stress(R, exe, seed, seconds, rounds, tag=""):
+def stress(R, exe, seed, seconds, rounds, record=300, tag=""):
     trace = os.path.join(R.work, "conc-trace" + tag)
     env = vlib.goenv()
-    env.update(VERIF_SEED=str(seed), VERIF_N=str(rounds), VERIF_SECONDS=str(seconds), VERIF_OUT=trace,
+    env.update(VERIF_SEED=str(seed), VERIF_N=str(rounds), VERIF_SECONDS=str(seconds), VERIF_RECORD=str(record), VERIF_OUT=trace,
                GORACE="halt_on_error=1 exitcode=66")
     rc, out = vlib.sh([exe, "-test.run", "TestConc", "-test.count=1", "-test.timeout=%ds" % (seconds + 120)], env=env, timeout=seconds + 300)
     return rc, out, trace
@@ -72,8 +72,8 @@ def run(R):
     okb, log = vlib.go_test_build("conc", h, race=True)
     if not okb:
         R.proof_problems.append("Go harness harness/conc no longer builds against the tree: " + log[-400:]); R.log(log[-1500:]); return R.finish()
-    seconds, rounds = (20, 1200) if R.quick else (300, 40000)
-    rc, out, trace = stress(R, h, R.seed, seconds, rounds)
+    seconds, rounds, record = (20, 100000, 300) if R.quick else (300, 10000000, 5000)
+    rc, out, trace = stress(R, h, R.seed, seconds, rounds, record)
     nraces = out.count("WARNING: DATA RACE")
     if nraces:
         block = out[out.index("WARNING: DATA RACE"):][:6000]
@@ -127,8 +127,8 @@ def run(R):
     samples = [x for x in text.split("\n") if x.startswith("H ")][:4]
     R.add_cases(rounds_seen, len(distinct), samples)
     R.coverage["rule"] = ("one evaluation = one round of 2..16 goroutines issuing reg/unreg/teardown/ins/rem/sets/uns and nh/st/fib/sl/rib lookups concurrently on a fresh FIB "
-                          "(alternating name tree / hash table, m in 1..3) under -race; three rounds in four are recorded (<= 17 operations) and checked for a sequential witness, "
-                          "every fourth is an unrecorded heavy round (200 operations per goroutine) for race/abort/deadlock detection; non-trivial = recorded round with >= 3 operation kinds "
+                          "(alternating name tree / hash table, m in 1..3) under -race; the first rounds (3 in 4, up to a cap) are recorded (<= 17 operations) and checked for a sequential witness, "
+                          "the others are unrecorded heavy rounds (200 operations per goroutine) for race/abort/deadlock detection; non-trivial = recorded round with >= 3 operation kinds "
                           "from >= 2 goroutines; distinct by MD5 of the history")
     R.coverage["distribution"] = dict(rounds=rounds_seen, linearizable=lin_ok, not_linearizable=lin_fail, race_reports=nraces,
                                       stress_seconds=seconds, harness_exit=rc)
@@ -148,6 +148,6 @@ def replay(R, path):
     okb, log = vlib.go_test_build("conc", h, race=True)
     if not okb:
         print(log[-1000:]); return 2
-    rc, out, trace = stress(R, h, body.get("seed", 1), 20, 400, tag="-replay")
+    rc, out, trace = stress(R, h, body.get("seed", 1), 20, 100000, 0, tag="-replay")
     print(out[-3000:])
     return 1 if ("DATA RACE" in out or "fatal error" in out or rc not in (0,)) else 0
